@@ -268,7 +268,11 @@ def configOp (j : Json) : Except String Res := do
 def hookOp (j : Json) : Except String Res := do
   let hook ← strList j "hook"
   let link ← str j "link"
-  let mt : Mime.MediaType := ⟨← str j "essence", ← str j "supertype", ← str j "subtype"⟩
+  let given : Mime.MediaType := ⟨← str j "essence", ← str j "supertype", ← str j "subtype"⟩
+  -- a media type as a document writes it: what `mime.Parse` makes of it, else `mime.Unknown()`
+  let mt : Mime.MediaType := match j.getObjVal? "mediatype" with
+    | .ok (Json.str raw) => (Mime.parse raw.toList).getD Mime.unknown
+    | _ => given
   let impl := (j.getObjVal? "impl").toOption.getD Json.null
   match Hook.build hook link mt with
   | .error _ => pure { model := panicJson }
@@ -285,7 +289,15 @@ def hookOp (j : Json) : Except String Res := do
            preds := [("argv_length", argvI.length == hook.length),
                      ("program_untouched", argvI.head? == hook.head?),
                      ("stdin_iff_no_url", (stdinI == link && !hasUrl) || (stdinI.isEmpty && hasUrl) || (link.isEmpty)),
-                     ("link_whole_argument", !hasUrl || argvI.contains link)],
+                     ("link_whole_argument", !hasUrl || argvI.contains link),
+                     -- an argument is replaced iff it is exactly a placeholder, by exactly the value it names
+                     ("arguments_replaced_whole_or_untouched",
+                        ((hook.zip argvI).drop 1).all fun (h, x) =>
+                          if h == "%url".toList then x == link
+                          else if h == "%mimetype".toList then x == mt.essence
+                          else if h == "%subtype".toList then x == mt.subtype
+                          else if h == "%supertype".toList then x == mt.supertype
+                          else x == h)],
            nontrivial := hook.length ≥ 2 }
 
 end Ops
